@@ -258,20 +258,8 @@ def correspond(run, binary):
     return failures, model_diffs
 
 
-def foreign_translator_checks_to_notes(run):
-    """C19/C20 use no regenerated table (their Coq files import nothing from Gen/): a failing
-    self-check of another property's translator plug-in is recorded, not judged here."""
-    kept = []
-    for n, ok, d in run.obligations:
-        if n.startswith("translator."):
-            run.notes.append(f"{n} (table not used by this property): {d[:160]}")
-        else:
-            kept.append((n, ok, d))
-    run.obligations = kept
-
-
 def check(run, terrs):
-    foreign_translator_checks_to_notes(run)
+    stale = F.source_tie_obligations(run, terrs)
     proofs_ok, detail = core.check_property_file(run, "C19")
     binary, err = core.build_harness(run)
     if not binary:
@@ -280,8 +268,9 @@ def check(run, terrs):
     failures, model_diffs = correspond(run, binary)
     run.trusted = TRUSTED
     run.assumptions = ASSUMPTIONS
-    return core.conclude(run, proofs_ok, detail, failures, model_diffs, level="proof", rule=RULE,
-                         explanation=EXPLANATION)
+    return core.conclude(run, proofs_ok, detail, failures, model_diffs,
+                         search=lambda: F.source_tie_search(run, binary, stale, "C19"),
+                         level="proof", rule=RULE, explanation=EXPLANATION)
 
 
 def replay(run, data):
@@ -312,8 +301,14 @@ EXPLANATION = ("partial proof + exploration: theorems cover the two hand-written
 TRUSTED = ["Coq 8.16.1 kernel incl. vm_compute (no native_compute)",
            "no axioms (all C19 theorems closed under the global context)",
            "jrharness fmt (formatter, lexer, ir-parser under catch_unwind), vlib generators, Coq term parser",
+           "translator/gens/fmtkernels.py (reads children.rs statement by statement, fails closed on anything "
+           "else) and the loop interpreter C19/ModelSource.src_run_loop of the translated step",
            "modelled not verified: dprint-core layout, every Printable impl, rowan tree construction, "
            "logos lexer; C19_parse_depends_on_tokens takes position-insensitivity of the parser as hypothesis"]
-ASSUMPTIONS = ["children.rs / comments.rs transliterated by hand; tie = side-by-side run on every check "
+ASSUMPTIONS = ["children.rs (count_newlines_before/after, should_start_with_newline, children) is translated statement "
+               "by statement into Gen/GenFmt.v on every run and proved equal to the model "
+               "(C19_model_is_translated_source_*); the element classification (T::cast / Trivia::cast / "
+               "CustomError / TS![, ;]) is abstracted into the five item constructors",
+               "comments.rs transliterated by hand; tie = side-by-side run on every check "
                "(block comment text and comment placement in arrays predicted by the Coq model)",
                "format() refuses every input with syntax errors, so error elements never reach children()"]
